@@ -230,6 +230,37 @@ def _install_speed_seams() -> None:
     appmod.load_all_plugins = lambda: None
     _patched.append((ia, "extract_module_info", ia.extract_module_info))
     ia.extract_module_info = lambda app: (None, None, None)
+    # configuration objects are pure functions of (class, config_values, file, task options,
+    # process environment): memoise their resolution (0.4 ms each, ~20 per app object)
+    import cistell.root as cr
+    from collections import defaultdict
+
+    orig_init = cr.ConfigRoot.__init__
+    cache: dict = {}
+
+    def fast_init(self, config_values=None, config_filepath=None):  # type: ignore[no-untyped-def]
+        try:
+            key = (type(self), repr(config_values), config_filepath, repr(self.__dict__))
+        except Exception:  # noqa: BLE001
+            return orig_init(self, config_values, config_filepath)
+        hit = cache.get(key)
+        if hit is None:
+            orig_init(self, config_values, config_filepath)
+            cache[key] = (
+                {k: set(v) for k, v in self.config_cls_to_fields.items()},
+                dict(self._config_values),
+                dict(self._provenance),
+                set(self._mapped_keys),
+            )
+            return None
+        self.config_cls_to_fields = defaultdict(set, {k: set(v) for k, v in hit[0].items()})
+        self._config_values = dict(hit[1])
+        self._provenance = dict(hit[2])
+        self._mapped_keys = set(hit[3])
+        return None
+
+    _patched.append((cr.ConfigRoot, "__init__", orig_init))
+    cr.ConfigRoot.__init__ = fast_init  # type: ignore[method-assign]
 
 
 def uninstall() -> None:
@@ -271,28 +302,50 @@ def reset_world(t0: float = EPOCH0) -> None:
 # scratch directory (SQLite files) — on /dev/shm, removed at exit
 # --------------------------------------------------------------------------
 _scratch: str | None = None
+_scratch_pid: int = 0
+_scratch_root: str | None = None
 
 
 def scratch_dir() -> str:
-    global _scratch
-    if _scratch is None or not os.path.isdir(_scratch):
+    """Per-process scratch directory on /dev/shm. Forked workers get a sub-directory of the
+    parent's directory, so the parent's atexit removes everything."""
+    global _scratch, _scratch_pid, _scratch_root
+    pid = os.getpid()
+    if _scratch is not None and _scratch_pid == pid and os.path.isdir(_scratch):
+        return _scratch
+    if _scratch_root is None or not os.path.isdir(_scratch_root):
         base = "/dev/shm" if os.path.isdir("/dev/shm") else tempfile.gettempdir()
-        _scratch = tempfile.mkdtemp(prefix=f"vf-{os.getpid()}-", dir=base)
+        _scratch_root = tempfile.mkdtemp(prefix=f"vf-{pid}-", dir=base)
         import atexit
 
-        pid = os.getpid()
-
-        def _cleanup(path: str = _scratch, pid: int = pid) -> None:
-            if os.getpid() == pid:
+        def _cleanup(path: str = _scratch_root, owner: int = pid) -> None:
+            if os.getpid() == owner:
                 shutil.rmtree(path, ignore_errors=True)
 
         atexit.register(_cleanup)
+        _scratch = _scratch_root
+    else:
+        _scratch = os.path.join(_scratch_root, f"w{pid}")
+        os.makedirs(_scratch, exist_ok=True)
+    _scratch_pid = pid
     return _scratch
 
 
+def reuse_db(name: str = "db") -> str:
+    """Path of this process's database `name`, emptied (rows deleted, schema kept)."""
+    from vf import sqlproxy
+
+    path = os.path.join(scratch_dir(), f"{name}.sqlite")
+    sqlproxy.reset_db(path)
+    return path
+
+
 def fresh_db(name: str = "db") -> str:
+    from vf import sqlproxy
+
     d = scratch_dir()
     path = os.path.join(d, f"{name}.sqlite")
+    sqlproxy.forget(path)
     for suffix in ("", "-wal", "-shm", "-journal"):
         try:
             os.unlink(path + suffix)
